@@ -167,10 +167,33 @@ fn pick_value(ch: &mut Chooser, allow_empty: bool) -> Vec<i64> {
     (0..n).map(|_| 10 + ch.pick(90) as i64).collect()
 }
 
-/// Read `count` keys starting at `key` (pre or post, own or external contract) into a fresh region at address 0
-/// and load the whole region onto the stack: [..] -> [.., region words].
+/// One key-range read into a fresh region at address 0, loaded onto the stack: [..] -> [.., region words].
+fn emit_read(post: bool, ext: Option<Addr>, key: &[i64], count: i64, size: i64) -> Vec<MOp> {
+    let mut v = vec![PUSH(0), FREE];
+    if let Some(c) = ext {
+        v.extend(crate::model::vm::bytes_to_words(&c).into_iter().map(PUSH));
+    }
+    v.extend(key.iter().map(|w| PUSH(*w)));
+    v.extend([PUSH(key.len() as i64), PUSH(count), PUSH(size), ALOC]);
+    v.push(match (post, ext.is_some()) {
+        (false, false) => KRNG,
+        (false, true) => KREX,
+        (true, false) => PKRNG,
+        (true, true) => PKREX,
+    });
+    v.extend([PUSH(0), PUSH(size), LODR]);
+    v
+}
+
+/// Read `count` keys starting at `key` (pre or post, own or external contract) and load what was read onto the
+/// stack. Post readers sometimes start with a jumped-over Halt and sometimes read the same range once more through
+/// the pre-state op of the same flavour (pre-state reads must never observe mutations, also in deferred programs).
 fn read_block(ch: &mut Chooser, post: bool) -> Vec<MOp> {
-    let ext = ch.chance(1, 3);
+    let ext = if ch.chance(1, 3) {
+        Some(if ch.chance(1, 2) { C_X } else if ch.chance(1, 2) { C_A } else { C_B })
+    } else {
+        None
+    };
     let mut count = [0i64, 1, 2, 3, 3, 4, 4][ch.pick(7)];
     let mut key = pick_key(ch);
     if ch.chance(1, 2) {
@@ -183,24 +206,15 @@ fn read_block(ch: &mut Chooser, post: bool) -> Vec<MOp> {
         key[1] -= 1;
     }
     let size = 5 * count.max(1);
-    let mut v = vec![PUSH(0), FREE];
+    let mut v = Vec::new();
     if ch.chance(1, 4) {
         // guard: a Halt that is jumped over (everything after it is still reachable)
-        v = vec![PUSH(2), PUSH(1), JMPIF, HLT, PUSH(0), FREE];
+        v.extend([PUSH(2), PUSH(1), JMPIF, HLT]);
     }
-    if ext {
-        let contract = if ch.chance(1, 2) { C_X } else if ch.chance(1, 2) { C_A } else { C_B };
-        v.extend(crate::model::vm::bytes_to_words(&contract).into_iter().map(PUSH));
+    v.extend(emit_read(post, ext, &key, count, size));
+    if post && ch.chance(1, 3) {
+        v.extend(emit_read(false, ext, &key, count, size));
     }
-    v.extend(key.iter().map(|w| PUSH(*w)));
-    v.extend([PUSH(key.len() as i64), PUSH(count), PUSH(size), ALOC]);
-    v.push(match (post, ext) {
-        (false, false) => KRNG,
-        (false, true) => KREX,
-        (true, false) => PKRNG,
-        (true, true) => PKREX,
-    });
-    v.extend([PUSH(0), PUSH(size), LODR]);
     v
 }
 
